@@ -23,8 +23,8 @@ type Analysis struct {
 	// syntactic call count does not see
 	escapes map[*FuncInfo]bool
 	hoCache map[*FuncInfo]bool
-	Prog  *Program
-	Sites map[string]*Site // key: fn|pos|kind|callee|loc
+	Prog    *Program
+	Sites   map[string]*Site // key: fn|pos|kind|callee|loc
 	// per function ordered site list
 	FnSites map[*FuncInfo][]*Site
 
@@ -1088,7 +1088,6 @@ func (a *Analysis) cluster(root *FuncInfo) map[*FuncInfo]bool {
 	visit(root)
 	return out
 }
-
 
 // localFuncTargets: v is a local of fn that is only ever assigned function literals, module functions or method values
 // of module functions; returns the module functions among them.
